@@ -172,7 +172,16 @@ func hangSampler() {
 	}()
 }
 
+// caseDir is the (empty, private) directory the sources are said to live in. Some annotations act on
+// the directory of the file being parsed (#[CliApplication] scans it for command scripts at parse
+// time): a path directly under "/" made such a parse walk the whole file system, which looked like
+// a hang and, worse, ran whatever scripts it found.
+var caseDir = "/nonexistent-verif-dir"
+
 func childMain(args []string) int {
+	if d := os.Getenv("VH_LEX_DIR"); d != "" {
+		caseDir = d
+	}
 	debug.SetMaxStack(256 << 20)
 	hangSampler()
 	in := bufio.NewReaderSize(os.Stdin, 1<<20)
@@ -212,7 +221,7 @@ func childMain(args []string) int {
 			// source twice on one VM (once to see whether it is accepted, once to run it) would
 			// reject every program that declares a class as "already declared"
 			fresh := vh.NewEnv()
-			o := fresh.RunSource(src, "/verif-run.zy")
+			o := fresh.RunSource(src, caseDir+"/verif-run.zy")
 			data.WriteOutput = func(string) {}
 			if o.Kind == "parse-error" {
 				rs.Parse = "error"
@@ -235,10 +244,10 @@ func childMain(args []string) int {
 					}
 				}()
 				p := env.Parser.Clone()
-				path := "/verif-case.zy"
+				path := caseDir + "/verif-case.zy"
 				text := src
 				if rq.Mode == "t" {
-					path = "/verif-case.php"
+					path = caseDir + "/verif-case.php"
 					if !strings.Contains(text, "<?php") {
 						// ParseString always uses Tokenize; template sources are parsed as the CLI would parse a .php file
 					}
@@ -268,9 +277,33 @@ type worker struct {
 	out *bufio.Reader
 }
 
+var (
+	lexDirOnce sync.Once
+	lexDirPath string
+)
+
+// lexDir: one empty directory per harness process (under the system temp dir; removed by RemoveLexDir)
+func lexDir() string {
+	lexDirOnce.Do(func() {
+		d, err := os.MkdirTemp("", "vh-lexdir-")
+		if err != nil {
+			d = "/nonexistent-verif-dir"
+		}
+		lexDirPath = d
+	})
+	return lexDirPath
+}
+
+// RemoveLexDir removes the directory created by lexDir (call at the end of a run)
+func RemoveLexDir() {
+	if lexDirPath != "" && strings.HasPrefix(lexDirPath, os.TempDir()) {
+		os.RemoveAll(lexDirPath)
+	}
+}
+
 func startWorker() (*worker, error) {
 	cmd := exec.Command(vh.Self(), "__child", "lexparse")
-	cmd.Env = append(os.Environ(), "GOMEMLIMIT=1500MiB", "GOTRACEBACK=all")
+	cmd.Env = append(os.Environ(), "GOMEMLIMIT=1500MiB", "GOTRACEBACK=all", "VH_LEX_DIR="+lexDir())
 	in, err := cmd.StdinPipe()
 	if err != nil {
 		return nil, err
